@@ -390,6 +390,9 @@ def rewrite_targets(tier, rng):
         "roll(x,3)[2:7]": (lambda x: da.roll(x, 3)[2:7], lambda a: np.roll(a, 3)[2:7]),
         "map_overlap(x)": (lambda x: x.map_overlap(lambda b: b * 2, depth=1, boundary="reflect"), lambda a: a * 2),
         "diff(x)[1:5]": (lambda x: da.diff(x)[1:5], lambda a: np.diff(a)[1:5]),
+        # untrimmed overlap: the result still carries the halos, so a slice of it is not a slice of the input
+        "map_overlap(depth=2, none, trim=False)[5:9]": (lambda x: x.map_overlap(lambda b: b * 1.0, depth=2, boundary="none", trim=False)[5:9], None),
+        "map_overlap(depth=1, reflect, trim=False)[3:]": (lambda x: x.map_overlap(lambda b: b * 1.0, depth=1, boundary="reflect", trim=False)[3:], None),
         # a take pushed through a broadcast changes the extent of the axis it acts on
         "broadcast_to(x,(3,12))[:, [5,0,3]]": (lambda x: da.broadcast_to(x, (3, 12))[:, [5, 0, 3]], lambda a: np.broadcast_to(a, (3, 12))[:, [5, 0, 3]]),
         "broadcast_to(x,(3,12))[:, [2]*14]": (lambda x: da.broadcast_to(x, (3, 12))[:, [2] * 14], lambda a: np.broadcast_to(a, (3, 12))[:, [2] * 14]),
